@@ -454,9 +454,9 @@ class World:
             places = pr.get(id_, [])
             kinds = [p.kind for p in places]
             elsewhere = kinds == ["held"] and places[0].holder is not None and places[0].holder != c.client
-            # in-memory and RabbitMQ consumers return every message related to them (ConsumerT.finish docstring):
-            # the client must not act on those handles any more. Redis leaves handed-over messages in flight.
-            returns_all = self.kind in ("mem", "amqp")
+            # consumers return every message related to them (ConsumerT.finish docstring): the client must not act on
+            # those handles any more
+            returns_all = True
             if kinds != ["held"] or elsewhere or returns_all:
                 m.holder = None
                 c.held.remove(id_)
@@ -671,7 +671,7 @@ class World:
                 if not any(c.queue == m.queue and c.dead for c in self.cons):
                     self.v("stranded-in-flight", f"end: message {id_} is still marked in-flight after every consumer finished, "
                            "and no client holds it", broker=self.kind)
-            elif kinds == ["held"] and self.kind in ("mem", "amqp"):
+            elif kinds == ["held"] and not any(c.dead and c.queue == m.queue for c in self.cons):
                 self.v("held-after-finish", f"end: message {id_} handed to consumer {m.holder} is still in flight after that "
                        "consumer finished", broker=self.kind)
 
